@@ -258,6 +258,13 @@ func genC05(g *Gen) error {
 		{mdata, "Data.GetNewRg", "getNewRg"},
 		{mdata, "Data.UpdateReplication", "updateReplication"},
 		{mcli, "Client.getAliveShardsForRepDB", "getAliveShardsForRepDB"},
+		{"lib/util/lifted/influx/meta/replication.go", "ReplicaGroup.nextHealth", "nextHealth"},
+		{"lib/util/lifted/influx/meta/replication.go", "ReplicaGroup.nextSubHealth", "nextSubHealth"},
+		{mdata, "Data.updatePtViewStatus", "updatePtViewStatus"},
+		{mdata, "Data.updatePtStatus", "updatePtStatus"},
+		{"coordinator/points_writer.go", "PointsWriter.writeRowToShard", "writeRowToShard"},
+		{"lib/errno/error.go", "IsRetryErrorForPtView", "isRetryErrorForPtView"},
+		{"engine/engine_replication.go", "EngineImpl.startRaftNode", "startRaftNode"},
 	} {
 		fd, err := g.Func(f[0], f[1])
 		if err != nil {
@@ -336,6 +343,15 @@ func genC05(g *Gen) error {
 	}
 	g.P("/-- the commit loop of a partition applies nothing before the start-up replay has been applied -/")
 	g.P("def commitLoopAfterReplay : Bool := %v\n", gated && usesGate && !startsBare && closesAfter)
+
+	// the errors on which the coordinator asks the meta data again and retries
+	for _, v := range []string{"retryableErrnos", "retryableErrStrs"} {
+		src, err := g.Const("lib/errno/error.go", v)
+		if err != nil {
+			return err
+		}
+		g.P("def %s : String := %s", v, leanStr(src))
+	}
 
 	// ---- propose ids: unique across the lives of a node? -------------------------------------
 	fd, err = g.Func(node, "StartNode")
